@@ -31,6 +31,13 @@ func (w *Writer) Case(suite string, fields []string, obs string) {
 }
 func (w *Writer) Count(tag string) { w.Stats[tag]++ }
 
+// Begin journals what is about to be fed to the implementation and flushes, so that if the
+// implementation kills the process the input that did it is on disk.
+func (w *Writer) Begin(what string) {
+	fmt.Fprintf(w.w, "#RUNNING %s\n", what)
+	w.w.Flush()
+}
+
 func kv(k string, v interface{}) string {
 	switch x := v.(type) {
 	case []byte:
